@@ -65,5 +65,5 @@ contract("hdc/algo/ops/ws2dpgu.py::ws2dpgu",
         "weights": f"implies(_ >= 1, forall(k, 0, N, ww[k] == VW[k] * {WA}) and cntpos(ww, N) == cntpos(VW, N))",
         "shapes": "ww.size == N and z.size == N and znew.size == N and wa.size == N and ZP.size == N",
     }}},
-    options={"nloops": 1},
+    options={"nloops": 1, "by": {"expectile_step": {"only": ["have", "call:", "let", "req", "inv:weights", "range", "path"], "prefer": "/noax"}}},
     props=("C03", "C14"), note="model R; the IRLS loop is cut at an invariant that keeps only what the final solve needs (weights of the last pass)")
